@@ -385,8 +385,24 @@ example := roundtrip_bytes_default .repaired Member.Toy.codec Member.Toy.bounded
   [Op.write [1, 2, 3], Op.flush, Op.write [4], Op.close] rfl
 
 /-- an instance of `produced_stream_wellframed` with a header that has a Name, a Comment and a user Extra sub-field -/
-example := produced_stream_wellframed Member.Toy.codec
-  { name := [0x66, 0xe9], comment := [0x63], extra := [88, 89, 1, 0, 7], mtime := 0x00024342, os := 3 }
-  ⟨by decide, by decide⟩ [Op.write [1, 2, 3], Op.flush, Op.write [4], Op.close] rfl (by rfl)
+example : ∃ ms : List Hts.Lemmas.BgzfBytes.Member,
+    (Member.closeOutput Member.Toy.codec.toCodecFns
+        { name := [0x66, 0xe9], comment := [0x63], extra := [88, 89, 1, 0, 7], mtime := 0x00024342, os := 3 }
+        (after [Op.write [1, 2, 3], Op.flush, Op.write [4], Op.close]).emitted).1 = Hts.Lemmas.BgzfBytes.stream ms ∧
+    (∀ m ∈ ms, m.WellFramed (Member.toBytesCodec Member.Toy.codec.toCodecFns)) ∧
+    Hts.Lemmas.BgzfBytes.data ms = accepted [Op.write [1, 2, 3], Op.flush, Op.write [4], Op.close] := by
+  have hk : Member.HdrOK { name := [0x66, 0xe9], comment := [0x63], extra := [88, 89, 1, 0, 7], mtime := 0x00024342, os := 3 } := by
+    decide
+  have hfit : ∀ p : List Member.Byte, p.length ≤ BlockSize → Member.Fits Member.Toy.codec.toCodecFns
+      { name := [0x66, 0xe9], comment := [0x63], extra := [88, 89, 1, 0, 7], mtime := 0x00024342, os := 3 } p := by
+    intro p hp
+    refine ⟨hk, ?_⟩
+    simp [Member.memberLen, Member.zbytes, Member.Toy.codec, Member.Toy.deflate, MaxBlockSize, BlockSize] at *
+    omega
+  have hall := Member.written_all _ _ (after [Op.write [1, 2, 3], Op.flush, Op.write [4], Op.close]).emitted
+    (fun p hp => hfit p (after_blocks_le _ rfl p hp))
+  have hrn := (Member.render_snd_none _ _ _).mpr hall
+  exact produced_stream_wellframed Member.Toy.codec _ ⟨by decide, by decide⟩ _ rfl
+    (by simpa only [Member.closeOutput_eq] using hrn)
 
 end Hts.Props.C01
